@@ -402,7 +402,7 @@ pub fn info_c07() -> PropInfo {
     PropInfo {
         id: "C07",
         level: "exploration",
-        rule: "generated projects (successful ones and ones with erroneous directives; temp targets in ../ and sub-directories, multi-line temps, temps after dependency directives; marker commands in about half of the sources). Histories from a tree S0 without generated files: build -> clean (snapshot must equal S0: same file set, bytes, and inode/mtime of every non-generated file; no directory created or removed), clean -> clean, clean without build, build -> delete some generated files -> clean, and for erroneous sources: (failed) build -> clean must succeed, touch nothing but generated paths and run no command. Marker log must not grow during any clean; a CLI sample runs clean under strace: no execve and no file creation by txtpp. Non-trivial = the build generated at least one file or the project contains an erroneous directive; distinct = distinct (project, history).",
+        rule: "generated projects (successful ones and ones with erroneous directives; temp targets in ../ and sub-directories, multi-line temps, temps after dependency directives; marker commands in about half of the sources). Histories from a tree S0 without generated files: build -> clean (snapshot must equal S0: same file set, bytes, and inode/mtime of every non-generated file; no directory created or removed), clean -> clean, clean without build, build -> delete some generated files -> clean, and for erroneous sources: (failed) build -> clean must succeed, touch nothing but generated paths and run no command. Marker log must not grow during any clean; a CLI sample runs clean under strace: no execve and no file creation by txtpp. Race rounds: 8 sources x 200 temp targets in a sub-directory that contains sources itself, build then recursive 8-thread clean, free-running (files vanish from a directory while another worker walks it). Non-trivial = the build generated at least one file or the project contains an erroneous directive; distinct = distinct (project, history).",
         assumptions: &["inputs are dependency-closed (directory input, recursive): Mode::Clean documents that dependencies are not followed", "generated paths = outputs and temp targets predicted by the reference model; for erroneous sources a superset obtained by scanning for temp directives"],
         floor: (150, 2500),
         shards: (16, 16),
@@ -577,7 +577,51 @@ fn c07_make(ctx: &mut Ctx, r: &mut StdRng, mlog: &Path, erroneous: bool) -> Proj
     c
 }
 
+/// Recursive multi-threaded clean while temp targets disappear from a directory that another
+/// worker is scanning at the same time (free-running: the interleaving is inside one task's
+/// directory walk, below gate granularity). Must succeed and restore the tree.
+fn c07_race(ctx: &mut Ctx, rounds: usize) {
+    let mut files = Files::new();
+    for k in 0..8 {
+        let mut s = String::new();
+        for t in 0..200 {
+            s.push_str(&format!("// TXTPP#temp gen/s{k}_{t}.part\n// part {t}\n\n"));
+        }
+        s.push_str(&format!("source {k}\n"));
+        files.insert(format!("s{k}.txt.txtpp"), s.into_bytes());
+    }
+    files.insert("gen/inner.txt.txtpp".into(), b"inner\n".to_vec());
+    files.insert("gen/deep/inner2.txt.txtpp".into(), b"inner2\n".to_vec());
+    let mut case = ProjectCase::simple(files.clone());
+    case.threads = 8;
+    for round in 0..rounds {
+        let root = ctx.scratch.fresh();
+        materialize(&root, &files, &[]);
+        let s0 = snap(&root);
+        let b = run_at(&root, &case, Mode::Build, true);
+        let c = run_at(&root, &case, Mode::Clean, true);
+        ctx.evals += 2;
+        ctx.count("clean_race_rounds", 1);
+        let s1 = snap(&root);
+        if b.verdict.is_ok() && !c.verdict.is_ok() {
+            ctx.violation("C07:clean-failed", format!("recursive 8-thread clean after a successful build failed (round {round}): {}", c.verdict.short()), json!({"kind": "race"}));
+            ctx.scratch.discard(&root);
+            break;
+        }
+        if b.verdict.is_ok() && s0.bytes() != s1.bytes() {
+            let d = diff(&s0, &s1);
+            ctx.violation("C07:left-behind", format!("after build + recursive 8-thread clean: left behind {:?} (first 5), missing {:?}", d.created.iter().take(5).collect::<Vec<_>>(), d.deleted), json!({"kind": "race"}));
+            ctx.scratch.discard(&root);
+            break;
+        }
+        ctx.distinct.insert(crate::util::hash_str(&format!("race{round}{}", ctx.shard)));
+        ctx.scratch.discard(&root);
+    }
+}
+
 fn run_c07(ctx: &mut Ctx) {
+    let rounds = ctx.tier.pick(3, 30);
+    c07_race(ctx, rounds);
     let mut r = StdRng::seed_from_u64(ctx.shard_seed());
     let n = ctx.tier.pick(400, 4000);
     let logs = ctx.scratch.root.join("logs");
@@ -601,6 +645,10 @@ fn run_c07(ctx: &mut Ctx) {
 }
 
 fn replay_c07(ctx: &mut Ctx, v: &Value) {
+    if v["kind"].as_str() == Some("race") {
+        c07_race(ctx, 60);
+        return;
+    }
     let case = ProjectCase::from_json(v);
     let logs = ctx.scratch.root.join("logs");
     let _ = std::fs::create_dir_all(&logs);
